@@ -108,6 +108,30 @@ def check_object_wrapper(kind: int, keep: bool, trips: int, attr: int, x: int) -
     return True
 
 
+def check_rewrap(kind: int, inner_keep: bool, keep: bool, trips: int, x: int) -> bool:
+    """
+    pre: 0 <= kind <= 5 and 1 <= trips <= 2 and 0 <= x <= 2
+    post: _
+    """
+    # wrapping something that is already a wrapper: the *new* call's keep_wrapper decides how it arrives
+    kind, trips, x = _conc(kind, 5), _conc(trips, 2), _conc(x, 2)
+    ref = _exemplar(kind)
+    inner = wrap_non_picklable_objects(ref, keep_wrapper=bool(inner_keep))
+    w = wrap_non_picklable_objects(inner, keep_wrapper=bool(keep))
+    if not isinstance(w, CloudpickledObjectWrapper) or not _same_behaviour(w, ref, x, "method"):
+        return False
+    cur = w
+    for _ in range(trips):
+        cur = pickle.loads(pickle.dumps(cur))
+        if isinstance(cur, CloudpickledObjectWrapper) != (bool(keep) or bool(inner_keep)):
+            return False  # still wrapped iff some layer asked to keep the wrapper
+        if not _same_behaviour(cur, ref, x, "method"):
+            return False
+        if not isinstance(cur, CloudpickledObjectWrapper):
+            return True
+    return True
+
+
 def check_class_wrapper(kind: int, keep: bool, trips: int, a: int, b: int, x: int) -> bool:
     """
     pre: 0 <= kind <= 2 and 1 <= trips <= 2
